@@ -410,18 +410,15 @@ class World:
         self.uses_regex_fn = [("match(" in t or "search(" in t) for t in self.texts]
 
     def _all_refs(self, with_strs: bool = True) -> Any:
+        """References of every (query, document, context) the run will evaluate.
+
+        Order matters when this runs in a forked child on behalf of a run with a foreign configuration: everything
+        about the *standard* configuration is computed before a differently configured environment exists in the
+        process at all, and only then the foreign one is built and its own references are taken."""
         refs: Dict[Tuple[int, int, int], _Ref] = {}
         frefs: Dict[Tuple[int, int, int], _Ref] = {}
         strs: Dict[str, Any] = {}
-        if with_strs:
-            # how each text prints when compiled where nothing else has been compiled yet
-            fenv = tripwire.foreign_environment(False)
-            for qi, t in enumerate(self.texts):
-                for name, env in (("std", self._ref_env), ("foreign", fenv)):
-                    try:
-                        strs[f"{name}:{qi}"] = str(env.compile(t))
-                    except Exception as ex:  # noqa: BLE001
-                        strs[f"{name}:{qi}"] = ("exc", type(ex).__name__)
+        fkeys: List[Tuple[int, int, int]] = []
         for script in self.plan["clients"]:
             for op in script:
                 if len(op) < 5:
@@ -432,10 +429,27 @@ class World:
                 for d in dis:
                     key = (qi, d % len(self.docs), ci)
                     if op[0] == "foreign":
-                        if key not in frefs:
-                            frefs[key] = self._reference(self.texts[qi], key[1], ci, tripwire.foreign_environment(False))
+                        if key not in fkeys:
+                            fkeys.append(key)
                     elif key not in refs:
                         refs[key] = self._reference(self.texts[qi], key[1], ci)
+
+        def _strs(name: str, env: Any) -> None:
+            # how each text prints when compiled where nothing else has been compiled yet
+            for qi, t in enumerate(self.texts):
+                try:
+                    strs[f"{name}:{qi}"] = str(env.compile(t))
+                except Exception as ex:  # noqa: BLE001
+                    strs[f"{name}:{qi}"] = ("exc", type(ex).__name__)
+
+        if with_strs:
+            _strs("std", self._ref_env)
+        if with_strs or fkeys:
+            fenv = tripwire.foreign_environment(False)
+            if with_strs:
+                _strs("foreign", fenv)
+            for key in fkeys:
+                frefs[key] = self._reference(self.texts[key[0]], key[1], key[2], fenv)
         return refs, frefs, strs
 
     def _check_child_strs(self) -> None:
